@@ -296,16 +296,24 @@ def run_one(prop, batch, env, timeout, workdir, idx):
     if outf.exists():
         outf.unlink()
     t0 = time.time()
-    try:
-        with open(logf, 'wb') as lf:
-            p = subprocess.run(
-                [PY, '-X', 'faulthandler', '-m', 'vf.worker', prop, str(spec),
-                 str(outf)],
-                env=env, cwd=str(VERIF), stdout=lf, stderr=subprocess.STDOUT,
-                timeout=timeout)
-        rc = p.returncode
-    except subprocess.TimeoutExpired:
-        rc = 'timeout'
+    import signal
+    with open(logf, 'wb') as lf:
+        # own session: on a watchdog timeout the whole process group goes
+        # (pool workers forked by emg3d would otherwise be orphaned)
+        p = subprocess.Popen(
+            [PY, '-X', 'faulthandler', '-m', 'vf.worker', prop, str(spec),
+             str(outf)],
+            env=env, cwd=str(VERIF), stdout=lf, stderr=subprocess.STDOUT,
+            start_new_session=True)
+        try:
+            rc = p.wait(timeout=timeout)
+        except subprocess.TimeoutExpired:
+            rc = 'timeout'
+            try:
+                os.killpg(p.pid, signal.SIGKILL)
+            except OSError:
+                pass
+            p.wait()
     dt = time.time() - t0
     if outf.exists():
         try:
